@@ -1,6 +1,7 @@
 package chaingen
 
 import (
+	"context"
 	"fmt"
 	"os"
 	"path/filepath"
@@ -9,6 +10,7 @@ import (
 
 	"verifharness/hx"
 
+	"github.com/protolambda/zrnt/eth2/beacon"
 	"github.com/protolambda/zrnt/eth2/beacon/common"
 )
 
@@ -99,6 +101,25 @@ func Generate(pr ChainParams) ChainResult {
 		}
 	}
 	return res
+}
+
+func (c *Chain) upgradeAtGenesis() error {
+	ust := &beacon.StandardUpgradeableBeaconState{BeaconState: c.St}
+	var err error
+	panicked, pv := hx.Catch(func() { err = ust.UpgradeMaybe(context.Background(), specWith(c.Spec, nil), c.Epc) })
+	if panicked {
+		return fmt.Errorf("upgrade at genesis panicked: %v", pv)
+	}
+	if err != nil {
+		return fmt.Errorf("upgrade at genesis: %w", err)
+	}
+	st := Unwrap(ust.BeaconState)
+	id := c.Rec.State(st)
+	c.Rec.Comment("state " + id + ": the genesis state " + c.StID + " upgraded at slot 0 (fork epochs 0)")
+	c.adopt(st, c.Epc, id)
+	c.recordEPC(id, c.St, c.Epc, true)
+	c.Stats.Inc("genesis_state_upgraded_at_slot_0")
+	return nil
 }
 
 func generateOnce(pr ChainParams) (res ChainResult) {
@@ -202,6 +223,15 @@ func generateOnce(pr ChainParams) (res ChainResult) {
 		res.Err = err
 		c.finish(&res, pr)
 		return
+	}
+	if sp.ALTAIR_FORK_EPOCH == 0 && !pr.GenesisOnly {
+		// the chain starts on a later fork: upgrade the phase0 genesis state at slot 0 (as a client does before the first block);
+		// the upgraded state enters the record as a declared state
+		if err := c.upgradeAtGenesis(); err != nil {
+			res.Err = err
+			c.finish(&res, pr)
+			return
+		}
 	}
 	c.noteState(c.St)
 	c.initSets()
